@@ -68,7 +68,7 @@ def lean_stage(pid, mod, ctx):
         st["theorems"] = {k: dict(ok=False, detail="library does not build") for k in names}
     # T1 equality lemmas live in their own module (Props/CxxT1.lean) so that a
     # failed transcription proof does not take the property theorems with it
-    t1names = list(getattr(mod, "T1_EQUALITY_THEOREMS", []))
+    t1names = list(getattr(mod, "T1_THEOREMS", [])) + list(getattr(mod, "T1_EQUALITY_THEOREMS", []))
     if t1names:
         t1mod = "BreezyVerif.Props.%sT1" % pid
         ok1, out1, _ = lean.build([t1mod])
